@@ -4,11 +4,17 @@ HARNESSES = [
          functions=["tls13CheckHsState"], sources=["matrixssl/tls13Decode.c"],
          assumptions=["hs_state13: all 256 hsState values x all 256 message types x both roles; oracle = RFC 8446 Appendix A transition table in this implementation's state names"],
          cases=[dict(name="all", defs={})]),
+    dict(name="finished12", src="finished12.c", checks=[],
+         units=["core/src/corelib_strings.c", "matrixssl/hsNegotiateVersion.c"],
+         functions=["parseFinished", "memcmpct"], sources=["matrixssl/hsDecode.c", "core/src/corelib_strings.c"],
+         assumptions=["finished12: session state arbitrary (RI-ssl) in hsState FINISHED; message bytes, available length, claimed length and transcript digest arbitrary; sslFreeHSHash / psX509FreeCert are no-ops; version enumerated"],
+         unwind=50,
+         cases=[dict(name=nm, defs={"VF_VER": v}) for nm, v in (("tls12", "(v_tls_1_2|v_tls_negotiated)"), ("tls11", "(v_tls_1_1|v_tls_negotiated)"), ("dtls12", "(v_dtls_1_2|v_tls_negotiated)"))]),
     COMMON["dec12"]("ccs_gate", ["C06"], COMMON["dec12_cases"](64, 40, dtls_only=("dtls10", "dtls12n")) + COMMON["dec12_cases"](96, 56, tier="thorough")),
 ]
 PROPERTY = dict(level='model_checking',
-    claim='ChangeCipherSpec activates the read cipher only when Finished is expected (or the documented ticket-limbo cases after deriving keys); the handshake parser is entered only for handshake records, once per call.',
+    claim='ChangeCipherSpec activates the read cipher only when Finished is expected (or the documented ticket-limbo cases after deriving keys); the handshake parser is entered only for handshake records, once per call; tls13CheckHsState accepts exactly the RFC 8446 transition table; parseFinished completes the handshake only after ChangeCipherSpec with a verify_data equal in every byte to the transcript value of the receiver.',
     bounds='as C01 (record decoder harness)',
-    outside='the handshake dispatcher parseSSLHandshake / tls13ParseHandshakeMessage transition tables (C06.a/d) are not yet encoded: message-order checking inside the handshake layer is NOT decided',
+    outside='the transition exceptions of the TLS<=1.2 dispatcher (parseSSLHandshake: only memory safety, fragment handling and DTLS message sequence are decided, in C08/C16), the per-message parsers that choose the next state, the computation of the transcript value',
     explanation='ChangeCipherSpec activates the read cipher only when Finished is expected (or the documented ticket-limbo cases after deriving keys); the handshake parser is entered only for handshake records, once per call.',
     assumptions=[])
